@@ -322,9 +322,13 @@ Inductive tl_factory : Type :=
 | TLNew                        (* TreeList(...) / dataset.new_tree_list: one list per TREES block *)
 | TLFixed.                     (* tree_list._tree_list_pseudofactory: always list 0 *)
 
-Record cfg : Type := mkCfg {
+(* the namespace side of a route's configuration (all the iterator has), and the whole of it *)
+Record nscfg : Type := mkNsCfg {
   c_attached : bool;           (* reader.attached_taxon_namespace is not None (it is namespace 0) *)
-  c_fac : tns_factory;
+  c_fac : tns_factory
+}.
+Record cfg : Type := mkCfg {
+  c_ns : nscfg;
   c_tlfac : tl_factory
 }.
 
@@ -359,7 +363,8 @@ Definition set_ns_taxa (k : core) (i : nat) (taxa : list str) : core :=
 (* lift a tokenizer step *)
 Definition zstep (k : core) (f : tz -> res tz) : res core := do z <- f (k_z k) ;; Ok (set_z k z).
 
-Variable c : cfg.
+Variable c : nscfg.
+Variable tlf : tl_factory.
 
 (* _new_taxon_namespace(title) *)
 Definition new_tns (k : core) (g : regs) (title : option str) : nat * core * regs :=
@@ -400,7 +405,7 @@ Definition get_tns (k : core) (g : regs) (title : option str) : res (nat * core 
 
 (* _new_tree_list(taxon_namespace, title) *)
 Definition new_tree_list (tls : list tlval) (tlreg : list nat) (title : option str) : nat * list tlval * list nat :=
-  match c_tlfac c with
+  match tlf with
   | TLNew =>
     let i := length tls in (i, tls ++ [mkTl title [] []], tlreg ++ [i])
   | TLFixed =>
@@ -909,10 +914,10 @@ Definition doc_tz (d : doc) : tz := tz_init (fst d) (snd d).
 Definition doc_fuel (d : doc) : nat := (length (fst d) + 4)%nat.
 
 (* the configurations the routes pass to DataReader._read *)
-Definition cfg_list : cfg := mkCfg false (FacFixed true) TLFixed.     (* TreeList.get / .read *)
-Definition cfg_blocks : cfg := mkCfg false (FacFixed true) TLNew.     (* Tree.get; TreeList.get(collection_offset=..) *)
-Definition cfg_yield : cfg := mkCfg true (FacFixed false) TLNew.      (* NexusTreeDataYielder; DataSet.get(taxon_namespace=ns) *)
-Definition cfg_dataset : cfg := mkCfg false FacNew TLNew.             (* DataSet.get *)
+Definition cfg_list : cfg := mkCfg (mkNsCfg false (FacFixed true)) TLFixed.     (* TreeList.get / .read *)
+Definition cfg_blocks : cfg := mkCfg (mkNsCfg false (FacFixed true)) TLNew.     (* Tree.get; TreeList.get(collection_offset=..) *)
+Definition cfg_yield : cfg := mkCfg (mkNsCfg true (FacFixed false)) TLNew.      (* NexusTreeDataYielder; DataSet.get(taxon_namespace=ns) *)
+Definition cfg_dataset : cfg := mkCfg (mkNsCfg false FacNew) TLNew.             (* DataSet.get *)
 
 Inductive schema : Type := Newick | Nexus.
 
@@ -921,13 +926,13 @@ Inductive schema : Type := Newick | Nexus.
 
 (* DataSet.get without a namespace starts with no TaxonNamespace object at all; every other route
    owns namespace 0 (holding ns0) before the reader starts *)
-Definition has_ns0 (c : cfg) : bool :=
+Definition has_ns0 (c : nscfg) : bool :=
   match c_fac c with FacNew => c_attached c | FacFixed _ => true end.
-Definition core_init (c : cfg) (ns0 : list str) (d : doc) : core :=
+Definition core_init (c : nscfg) (ns0 : list str) (d : doc) : core :=
   mkCore (doc_tz d) None (if has_ns0 c then [ns0] else []).
-Definition regs_init (c : cfg) : regs := mkRegs (if has_ns0 c then [None] else []) [].
+Definition regs_init (c : nscfg) : regs := mkRegs (if has_ns0 c then [None] else []) [].
 Definition nexus_init (c : cfg) (ns0 : list str) (d : doc) : rs T :=
-  mkRs (core_init c ns0 d) (regs_init c)
+  mkRs (core_init (c_ns c) ns0 d) (regs_init (c_ns c))
        (match c_tlfac c with TLFixed => [mkTl None [] []] | TLNew => [] end)
        [].
 
@@ -937,7 +942,7 @@ Definition rs_list0 (s : rs T) : list T := tl_trees (nth O (r_tls s) (mkTl None 
 Definition rs_ns0 (s : rs T) : list str := nth O (k_nss (r_k s)) [].
 
 Definition nexus_read (c : cfg) (ns0 : list str) (d : doc) : res (rs T) :=
-  r_parse_nexus_stream T lower upper parse_tree set_label add_comments c false (doc_fuel d) (nexus_init c ns0 d).
+  r_parse_nexus_stream T lower upper parse_tree set_label add_comments (c_ns c) (c_tlfac c) false (doc_fuel d) (nexus_init c ns0 d).
 
 Definition newick_read (ns0 : list str) (d : doc) : res (list T * list str) :=
   do r <- newick_read_loop T parse_tree (doc_fuel d) (new_mapper lower ns0 false) (doc_tz d) [] ;;
@@ -1002,8 +1007,8 @@ Definition yield_from_files (sch : schema) (ns0 : list str) (d : doc) : list T *
     let '(out, r) := newick_yield_loop T parse_tree (doc_fuel d) (new_mapper lower ns0 false) (doc_tz d) in
     (out, do x <- r ;; Ok (m_ns (fst x)))
   | Nexus =>
-    let '(out, r) := y_items_from_stream T lower upper parse_tree set_label add_comments cfg_yield false
-                                         (doc_fuel d) (core_init cfg_yield ns0 d) (regs_init cfg_yield) in
+    let '(out, r) := y_items_from_stream T lower upper parse_tree set_label add_comments (c_ns cfg_yield) false
+                                         (doc_fuel d) (core_init (c_ns cfg_yield) ns0 d) (regs_init (c_ns cfg_yield)) in
     (out, do s <- r ;; Ok (nth O (k_nss (fst s)) []))
   end.
 
